@@ -18,7 +18,7 @@ from .index import AnalysisError
 
 
 class V:
-    def __init__(self, name, file, old, new, rule=None, twin=False, count=1):
+    def __init__(self, name, file, old, new, rule=None, twin=False, count=1, patch=None):
         self.name = name
         self.file = file  # relative to src/onnx_ir
         self.old = old
@@ -26,11 +26,32 @@ class V:
         self.rule = rule  # expected rule id (None for twins)
         self.twin = twin
         self.count = count
+        self.patch = patch  # path of a unified diff (relative to the repository root) applied instead of old/new
+
+
+def _seed_variants(prop: str) -> list:
+    """Every stored seeded change of the property (/verif/seeded/<id>/patch.diff) is a self-test variant: the patch is
+    applied to the scratch copy and must be reported (seeds recorded as not detected are skipped)."""
+    import glob
+    import json
+
+    out = []
+    base = os.path.join(os.path.dirname(os.path.dirname(os.path.abspath(__file__))), "seeded")
+    for meta in sorted(glob.glob(os.path.join(base, "*", "meta.json"))):
+        try:
+            with open(meta, encoding="utf-8") as fh:
+                m = json.load(fh)
+        except Exception:
+            continue
+        if m.get("property") != prop or str(m.get("detected_by", "")).upper().startswith("NOT DETECTED"):
+            continue
+        out.append(V(f"stored seed {m['id']}", None, None, None, None, patch=os.path.join(os.path.dirname(meta), "patch.diff")))
+    return out
 
 
 def _variants(prop: str) -> list[V]:
     mod = importlib.import_module("sa.selftest_variants")
-    return list(mod.VARIANTS.get(prop, []))
+    return list(mod.VARIANTS.get(prop, [])) + _seed_variants(prop)
 
 
 def _findings(prop: str, root: str) -> dict[str, str]:
@@ -51,6 +72,18 @@ def _run_one(args):
     tmp = tempfile.mkdtemp(prefix="irpy-sa-")
     try:
         _copy_tree(repo_root, tmp)
+        if v.patch is not None:
+            import subprocess
+
+            r = subprocess.run(["git", "apply", "--whitespace=nowarn", v.patch], cwd=tmp, capture_output=True, text=True)
+            if r.returncode != 0:
+                return (v.name, "not-applicable", "patch does not apply to the current tree: " + r.stderr.strip()[:120])
+            try:
+                got = _findings(prop, tmp)
+            except AnalysisError as e:
+                return (v.name, "detected-as-analysis-error", str(e)[:200])
+            new = {k: r_ for k, r_ in got.items() if k not in base}
+            return (v.name, "detected", sorted(new)[0][:200]) if new else (v.name, "MISSED", "no new finding")
         path = os.path.join(tmp, "src", "onnx_ir", v.file)
         with open(path, encoding="utf-8") as fh:
             src = fh.read()
